@@ -249,9 +249,12 @@ func (d Diff) RenderPatch() (string, error) {
 				Value: e,
 			})
 		}
-		slices.Reverse(element.Add)
-		for _, e := range element.Add {
-			if isVoid(element.Add[0]) {
+		// JSON Patch adds at a fixed index, so emit in reverse order.
+		// Reverse a copy: the diff belongs to the caller.
+		adds := slices.Clone(element.Add)
+		slices.Reverse(adds)
+		for _, e := range adds {
+			if isVoid(adds[0]) {
 				continue
 			}
 			patch = append(patch, patchElement{
